@@ -32,7 +32,14 @@ THEOREMS = [
     "ESV.C18.splice_printed_mark", "ESV.C18.printed_mark_tokens", "ESV.C18.posmark_print_parse", "ESV.C18.span_examples",
 ]
 
-NAME_BASES = ["m", "Mark", "p_1", "", "é", "a b", "x,y", "<p>", "it's", 'say "hi"', "😀", "//c", "/*x*/", "Position<", ">"]
+NAME_BASES = ["m", "Mark", "p_1", "", "é", "a b", "x,y", "<p>", "it's", 'say "hi"', "😀", "//c", "/*x*/", "Position<", ">",
+              # backslashes that are not part of \' \" \n and not last: spelled and printed verbatim, read back unchanged
+              "dir\\sub", "C:\\maps\\top", "a\\\\b", "x\\ y", "\\é",
+              # characters whose Unicode normal forms differ (NFC shortens / NFD lengthens / NFKC changes)
+              "e\u0301", "か\u3099", "\u1100\u1161", "\u00e9", "\uac00", "\ufb01", "\u2126", "\u212b", "\u00bd"]
+# string arguments placed in front of literals: text whose NFC / NFD / NFKC / NFKD forms have another length or other code points
+UNICODE_STRINGS = ["e\u0301", "cafe\u0301 か\u3099", "\u1100\u1161\u11a8", "\uac00\u00e9\u00c5", "\ufb01\ufb02 \u338f", "\u2126 \u212b \u00bd", "A\u030a\u0301o\u0308",
+                   "\U0001d15e", "\uff21\uff42"]
 NUM_SPELLINGS = ["0", "12", "-3", "0x1F", "0o17", "0b101", "-0X2", "00", ".5", "0.5", "3.5", "3.50", "7.0", "7.000", "-2.5", "-0.5",
                  "007.5", "00.50", ".0", "0.0", "255", "-12.5"]
 # texts every run evaluates with the same oracle (boundary shapes, and the witness of the known finding)
@@ -47,6 +54,25 @@ WITNESSES = [
 # ----------------------------------------------------------------------------------------------------------------------
 # generator
 # ----------------------------------------------------------------------------------------------------------------------
+def printable_name(n: str) -> bool:
+    """does str(SsbOpParamPositionMarker(n, ...)) read back as the name n?  The printed form puts the name verbatim between
+    single quotes: it must not contain a single quote, a line break or form feed; no backslash directly before a quote
+    character or the letter n (the reader replaces \\" \\' \\n); and, taking every backslash together with the character
+    after it as the lexer does, no backslash may be left over at the end.  (C04: SQ not in name, NL not in name, GuardS SQ name;
+    compared with the real printer + compiler on every name of length <= 4 over {\\, ', ", n, a, blank}.)"""
+    if any(c in n for c in "'\n\r\x0c") or '\\"' in n or "\\n" in n:
+        return False
+    i = 0
+    while i < len(n):
+        if n[i] == "\\":
+            if i + 1 >= len(n):
+                return False
+            i += 2
+        else:
+            i += 1
+    return True
+
+
 def new_pos(r: random.Random) -> dict:
     return {"k": "pos", "name": r.choice(NAME_BASES), "x": r.choice(NUM_SPELLINGS), "y": r.choice(NUM_SPELLINGS), "quote": r.choice(["'", '"'])}
 
@@ -125,6 +151,10 @@ def inject(r: random.Random, ast: dict, density: float) -> None:
                 args[i] = new_pos(r)
         while r.random() < density:
             args.insert(r.randint(0, len(args)), new_pos(r))
+        # a string with decomposed / compatibility characters directly in front of a literal (same line in dense layouts)
+        for i in range(len(args) - 1, -1, -1):
+            if args[i]["k"] == "pos" and r.random() < 0.3:
+                args.insert(i, {"k": "str", "v": r.choice(UNICODE_STRINGS), "quote": r.choice(["'", '"'])})
 
 
 def literals(ast: dict) -> list[dict]:
@@ -245,6 +275,10 @@ def shape(text: str, lit: dict) -> str:
         s += "_after_nonascii"
     if any(ord(c) > 0xFFFF for c in line[: lit["start"][1]]):
         s += "_after_astral"
+    import unicodedata
+    pre = line[: lit["start"][1]]
+    if any(len(unicodedata.normalize(f, pre)) != len(pre) for f in ("NFC", "NFD", "NFKC", "NFKD")):
+        s += "_after_normalizable"
     return s
 
 
@@ -299,7 +333,12 @@ def make_edits(r: random.Random, lits: list[dict], marks: list, n: int) -> list[
     r.shuffle(idx)
     out = []
     for j, i in enumerate(sorted(idx[:n])):
-        mark = [f"E{j}_{r.choice(['a', 'Zz', 'q_1', ''])}", r.choice([0, 2]), r.choice([0, 2]), r.choice([0, 1, 7, 250, -1, -13]), r.choice([0, 3, 99, -4])]
+        old = lits[i]["value"][0]
+        if printable_name(old) and r.random() < 0.5:
+            name = old      # only the coordinates are edited
+        else:
+            name = f"E{j}_{r.choice(['a', 'Zz', 'q_1', '', 'dir' + chr(92) + 'sub', 'C:' + chr(92) + 'm' + chr(92) + 't', 'w' + chr(92) * 2 + 'z', 'e' + chr(0x301), chr(0xfb01)])}"
+        mark = [name, r.choice([0, 2]), r.choice([0, 2]), r.choice([0, 1, 7, 250, -1, -13]), r.choice([0, 3, 99, -4])]
         out.append({"index": i, "start": marks[i][0:2], "end": marks[i][2:4], "mark": mark})
     return out
 
@@ -329,10 +368,31 @@ def oracle_splice(text: str, lits: list[dict], out: dict, edits: list[dict], sp:
             continue
         exp_ops = replace_params(comp, l["value"][0], e["mark"])
         if c2["ops"] != exp_ops:
-            def without(ops: list) -> list:
-                skip = {l["value"][0], e["mark"][0]}
-                return [[{**op, "params": [p for p in op["params"] if not (isinstance(p, dict) and p.get("pm", [None])[0] in skip)]} for op in rt] for rt in ops]
-            kind = "splice_param_wrong" if without(c2["ops"]) == without(exp_ops) else "splice_changes_other"
+            def classify_diff() -> str:
+                """the differences sit only in parameters that stem from the edited literal -> param wrong (which field)"""
+                got = c2["ops"]
+                if len(got) != len(exp_ops) or any(len(x) != len(y) for x, y in zip(got, exp_ops)):
+                    return "splice_changes_other"
+                fields: set = set()
+                for rx, ry in zip(exp_ops, got):
+                    for ox, oy in zip(rx, ry):
+                        if ox == oy:
+                            continue
+                        if ox["name"] != oy["name"] or ox["off"] != oy["off"] or len(ox["params"]) != len(oy["params"]):
+                            return "splice_changes_other"
+                        for px, py in zip(ox["params"], oy["params"]):
+                            if px == py:
+                                continue
+                            if isinstance(px, dict) and px.get("pm") == list(e["mark"]) and isinstance(py, dict) and "pm" in py:
+                                names = ["name", "x_offset", "y_offset", "x_relative", "y_relative"]
+                                fields |= {names[i] for i in range(5) if px["pm"][i] != py["pm"][i]}
+                            else:
+                                return "splice_changes_other"
+                suffix = "_".join(sorted(fields))
+                if fields == {"name"} and chr(92) in e["mark"][0]:
+                    suffix = "name_with_backslash"
+                return "splice_param_wrong_" + suffix
+            kind = classify_diff()
             from .c16 import first_op_difference
             bad.append((f"{kind}_{sh}", f"after replacing entry {e['index']} ({l['value'][0]!r}) by {r['printed']}: {first_op_difference(exp_ops, c2['ops'])}"))
         elif c2["infos"] != comp["infos"] or c2["coros"] != comp["coros"]:
@@ -576,7 +636,7 @@ def run(run: core.Run) -> int:
         "splice-and-recompile are evaluated on the real code for generated programs (programs, outcomes, literal_shapes)")
     return run.finish("other", cov, [
         "the Lean theorems are about text spans and the token model; that the visitor reports the first/last token of every literal is decided by the oracle on generated programs (exploration)",
-        "the splice theorem assumes the printed mark's name needs no escaping (C04 known finding posmark_name_needs_escape); edited names are plain",
+        "the splice theorem assumes the printed mark's name needs no escaping (C04 known finding posmark_name_needs_escape); edited names satisfy printable_name (backslash + ordinary character and doubled backslashes included; quotes, backslash before quote / n / end excluded)",
         "edited offsets are 0 or 2 (the only offsets the printed form reproduces, C04 posarg_exact_iff)",
     ])
 
